@@ -326,6 +326,34 @@ theorem exec_CALL (md : Module) (ins : Instr) (orc : Oracle) (hop : ins.op = .CA
   subst e2
   exact ⟨a, env, fip, h1, h2, modify_run _ _ _ _ hC⟩
 
+theorem exec_UNHANDLED (md : Module) (ins : Instr) (orc : Oracle) (hop : ins.op = .UNHANDLED_EXCEPTION) (vm vm' : Vm)
+    (h : (exec md ins orc).run vm = .ok ((), vm')) : vm'.running = 3 := by
+  exec_unfold hop at h
+  obtain ⟨sp, s0, h0, hA⟩ := (run_bind_ok _ _ _ _ _).mp h
+  obtain ⟨v1, s1, h1, hB⟩ := (run_bind_ok _ _ _ _ _).mp hA
+  obtain ⟨u2, s2, h2, hC⟩ := (run_bind_ok _ _ _ _ _).mp hB
+  have := modify_run _ _ _ _ hC
+  rw [this]
+
+theorem retP_bounds {vm vm' : Vm} (h : retP vm = .ok vm') : 4 ≤ vm.fp ∧ vm.fp < vm.stackSize ∧ 0 ≤ vm.sp ∧ vm.sp < vm.stackSize := by
+  unfold retP at h
+  simp only [bind, Except.bind] at h
+  split at h
+  · cases h
+  · split at h
+    · cases h
+    · rename_i r hr
+      split at h
+      · cases h
+      · rename_i p hp
+        split at h
+        · cases h
+        · rename_i t ht
+          have b1 := rdP_ok_bounds hp
+          have b2 := rdP_ok_bounds hr
+          have b3 := rdP_ok_bounds ht
+          omega
+
 theorem exec_HALT (md : Module) (ins : Instr) (orc : Oracle) (hop : ins.op = .HALT) (vm vm' : Vm)
     (h : (exec md ins orc).run vm = .ok ((), vm')) : vm' = { vm with running := 0 } := by
   exec_unfold hop at h
